@@ -4,6 +4,7 @@ import (
 	"fmt"
 	"go/token"
 	"io"
+	"os"
 	"sort"
 	"strings"
 	"sync"
@@ -631,6 +632,13 @@ func (in *Interp) check(v Value, msg, knownID string, fr *frame) {
 		in.stats.OblQ++
 		in.stats.mu.Unlock()
 		if err != nil || r == smt.Unknown {
+			if os.Getenv("VERIF_DUMP_UNKNOWN") != "" {
+				var sb strings.Builder
+				for _, t := range in.pc {
+					sb.WriteString("(assert " + smt.Print(t) + ")\n")
+				}
+				os.WriteFile(os.Getenv("VERIF_DUMP_UNKNOWN"), []byte(sb.String()), 0o644)
+			}
 			in.inconclusive(fmt.Sprintf("model query for failed assertion %q: %v %v", msg, r, err))
 			panic(abortPath{"assertion failed (no model)"})
 		}
